@@ -11,17 +11,17 @@ PROPS = {
    rule="one evaluation = one simulated run over a block tree with rich transaction graphs (cross-fork re-commits, cells created and spent on different branches, uncles, proposals) incl. clean restarts and snapshot-reader captures at arbitrary steps; at every quiescent point, after every restart and for every captured snapshot, ALL rows of COLUMN_INDEX/CELL/CELL_DATA/CELL_DATA_HASH/TRANSACTION_INFO/UNCLES, META tip/epoch, BLOCK_EPOCH/EPOCH and BLOCK_EXT of main-chain blocks and the chain-root MMR roots are compared with the model's replay of that tip's chain. non-trivial = run with a reorganisation or orphan-first delivery",
    assumptions=["BlockExt.cycles is only checked for length (script cycle counts are not re-derived by the model)", "truncate is exercised only by the C02 thorough tier through SimChain::truncate"]),
  "C03": dict(level="exploration", quick=700, thorough=40000,
-   rule="one evaluation = one simulated run; every block is valid by construction (independent builder: epoch, reward, DAO, chain root, proposals window, uncles) or carries exactly one named rule violation (dao c/u/ar/s, target, epoch index/length, reward +1/-1/lock, early cellbase output, missing/short/wrong chain-root extension, sibling/duplicate/already-included uncle, commit of an unproposed transaction) anywhere in the tree incl. the middle of a heavier side branch; oracle: valid heaviest chains are attached, no block of a chain containing a mutant is ever attached or marked verified, refusal leaves the stored state equal to the replay of the old tip. non-trivial as C01",
-   assumptions=["this is generated-input checking carried by the simulator; the simulation-specific parts are delivery order/stage interleaving and refusal atomicity under reorg", "header-level rules enforced only by HeaderVerifier (timestamp vs median / future bound, PoW) are not exercised: the simulator delivers straight to the chain service as `ckb import`/orphan release do", "uncle rules are covered by three mutants (sibling as uncle, duplicate uncle, uncle already included / on the main chain) and the two-phase commit by one (commit of a never-proposed transaction); uncle epoch/target, proposal-limit and too-early/too-late commit mutants are not in the set"]),
+   rule="one evaluation = one simulated run; every block is valid by construction (independent builder: epoch, reward, DAO, chain root, proposals window, uncles, in half of the runs a real proof-of-work nonce mined by the model for the Eaglesong or EaglesongBlake2b engine) or carries exactly one named rule violation anywhere in the tree incl. the middle of a heavier side branch: dao c/u/ar/s, target, epoch index/length, reward +1/-1/lock, early cellbase output, missing/short/wrong chain-root extension, transactions root / proposals hash / extra hash not matching the body, a witness changed under an unchanged root, two cellbases, cellbase not first, two cellbase outputs, cellbase output data, cellbase type script, cellbase input number, garbage or missing cellbase witness, duplicate transaction, sibling/duplicate/already-included/unknown-parent/other-epoch/too-many/bad-nonce uncle, commit of an unproposed or time-locked transaction. In three runs out of five every delivery first passes the header stage exactly as the miner RPC submit_block runs it (real HeaderVerifier on the current snapshot, parent must be stored) with header-only mutants (timestamp equal to the past median, wrong number, malformed epoch fraction, nonce above target) and boundary-valid headers (timestamp = median+1, timestamp = node clock + 15 s exactly; one ms later is refused until the clock has moved). Oracle: the header stage accepts exactly the headers the model's reading of the header rules accepts at the node's clock; valid heaviest chains are attached; no block of a chain containing a mutant is ever attached or marked verified; refusal leaves the stored state equal to the replay of the old tip. non-trivial as C01, or a header-stage refusal for a rule reason",
+   assumptions=["this is generated-input checking carried by the simulator; the simulation-specific parts are delivery order/stage interleaving, the node clock, and refusal atomicity under reorg", "the peer path (HeadersProcess / compact-block relay) runs the same HeaderVerifier over a different header provider; only the submit_block provider (Snapshot) is exercised here; C16 drives the peer handlers for robustness only", "block size / cycle / proposal-count limits are not among the mutants; version rules neither"]),
  "C06": dict(level="exploration", quick=700, thorough=40000,
    rule="one evaluation = one simulated run with random fees, proposer/committer assignments across blocks and uncles, re-proposals inside the window, epoch boundaries with remainder rewards and halvings; the model computes every cellbase reward (primary + secondary*U/C + committer shares + first-proposer shares) and DAO field from the property text; the node must accept every such block when it is on the heaviest chain and reject reward/DAO mutants; at the end header U == occupied capacity of the live cells actually stored and every main-chain cellbase equals the property-text reward. non-trivial as C01",
    assumptions=["NervosDAO deposits, phase-1 and phase-2 withdrawals are generated against a genesis DAO cell whose code is always_success: the node-side accounting (maximum withdraw from the two accumulated rates, fee of the withdrawal, S decreasing by the interest, occupied capacity of the 8 data bytes) is exercised and checked against the model; the on-chain NervosDAO script (since lock period, capacity equality in phase 1) is not", "blocks come from the model's builder only; the node's own block assembler is exercised by C13"]),
  "C19": dict(level="exploration", quick=600, thorough=30000,
    rule="one evaluation = one simulated run; (roots) every block's extension carries the chain root computed by a from-scratch MMR (own merge rule per RFC 0044) over its ancestors, so acceptance by the node's BlockExtensionVerifier is an equality check on every fork; after every reorganisation and restart the node's Snapshot::chain_root_mmr(tip-1/tip).get_root() must equal the naive root; wrong/short/missing root mutants must be rejected. (proofs) at every quiescent point and after every restart, for three seeded (last block L, 1-6 ancestor positions) requests, the parent chain root and proof items produced from the stored MMR exactly as the light-client server's reply_proof does (chain_root_mmr(L-1).get_root / gen_proof) are rebuilt into a proof the way a client does (mmr size from L) and must verify against the MODEL's root and header digests, must not verify a header of another block at one of the positions, and must not verify against the root of another prefix. (filters) the block-filter builder runs as explicit passes at arbitrary moments (lagging behind by blocks, reorganisations and restarts; real BlockFilter::build_filter_data through a verif hook); after every pass every main-chain block must have a filter that matches each lock and type script hash of its outputs and spent inputs (inputs resolved through the model), whose bytes equal the encoding of exactly that set, and whose filter hash equals blake2b(parent filter hash || blake2b(filter)) from a zero hash at genesis; the latest-built mark must be the tip. non-trivial as C01",
    assumptions=["the light-client protocol handler itself (message parsing, sampling of positions for GetLastStateProof, missing-item handling) is not driven here: the proof is produced by the same store calls the handler makes; its robustness against malformed requests is covered by C16's handler part", "the golomb-coded-set and ckb-merkle-mountain-range crates' encode/verify routines are used by the oracle with model-derived inputs (elements, root, leaves)", "a reorganisation racing with a builder pass (the builder reads the live store while holding an older snapshot) is not simulated: passes are atomic steps"]),
- "C07": dict(level="exploration", quick=80, thorough=4000,
-   rule="one evaluation = one simulated chain of 340-4300 blocks over 2-4 epochs of 300-1800 blocks with the REAL difficulty adjustment; the miners' clock runs in per-epoch regimes (30%-250% of the ideal pace, stalls of 1 ms per block, bursts, rare jumps of an hour or a day), uncle rates from 0 to 20%, primary-reward halving every 1-3 epochs; every epoch transition computed by the node must equal the model's exact big-rational evaluation of RFC 0020 (EpochExt compared field by field, header epoch/target enforced by the node's own verifier on model-built blocks), and the node's recorded epochs must satisfy: length within [300,1800] and within x2 of the previous, non-zero difficulty, hash-rate estimate within x2 of the previous, gap-free epoch fields, per-epoch sums of block rewards equal to the scheduled primary (with halvings) and secondary issuance, compact<->target<->difficulty conversions equal to an independent implementation and monotone on every target met. non-trivial = at least one epoch transition was reached",
-   assumptions=["PARTIAL CLAIM: decided only for the epoch statistics reached by simulated histories (clock-driven durations, uncle rates, clamp boundaries); the same statements over the whole u64/U256 input space and all compact encodings are pure functions of their arguments and are not sampled here", "proof-of-work acceptance is not covered (Pow::Dummy in simulation)"]),
+ "C07": dict(level="exploration", quick=200, thorough=10000,
+   rule="(two runs out of five) one evaluation = one simulated chain of 340-4300 blocks over 2-4 epochs of 300-1800 blocks with the REAL difficulty adjustment; the miners' clock runs in per-epoch regimes (30%-250% of the ideal pace, stalls of 1 ms per block, bursts, rare jumps of an hour or a day), uncle rates from 0 to 20%, primary-reward halving every 1-3 epochs; every epoch transition computed by the node must equal the model's exact big-rational evaluation of RFC 0020 (EpochExt compared field by field, header epoch/target enforced by the node's own verifier on model-built blocks), and the node's recorded epochs must satisfy: length within [300,1800] and within x2 of the previous, non-zero difficulty, hash-rate estimate within x2 of the previous, gap-free epoch fields, per-epoch sums of block rewards equal to the scheduled primary (with halvings) and secondary issuance, compact<->target<->difficulty conversions equal to an independent implementation and monotone on every target met. (three runs out of five) short pipeline runs under a real proof-of-work engine (Eaglesong, EaglesongBlake2b): the model mines a nonce for every block and uncle by its own reading of the rule (eaglesong over pow hash and little-endian nonce, big-endian comparison with the target decoded from the compact field), the header stage must accept exactly those, refuse blocks whose only flaw is a nonce above the target, and the chain must refuse a block embedding such an uncle or carrying another target than its epoch's. non-trivial = at least one epoch transition was reached or a proof-of-work refusal happened",
+   assumptions=["PARTIAL CLAIM: decided only for the epoch statistics reached by simulated histories (clock-driven durations, uncle rates, clamp boundaries); the same statements over the whole u64/U256 input space and all compact encodings are pure functions of their arguments and are not sampled here", "proof-of-work acceptance is decided for mined and deliberately missed nonces only: a header hash exactly equal to its target is not reachable by search"]),
  "C20": dict(level="exploration", quick=700, thorough=40000,
    rule="one evaluation = one simulated run with random proposal sets in blocks and uncles, reorganisations of any depth relative to the window (w_close 1..3, w_far up to 11), chains shorter than the window, and 1-3 clean restarts at arbitrary operation indexes (new OS process on the same database: init_proposal_table path); after every tip change and after every restart Snapshot::proposals().{set,gap} must equal the union over the model's window. non-trivial as C01",
    assumptions=["detached_proposal_id delivered to the pool is covered by C12's engine, not here", "commit acceptance at the window edges is covered by the model-built commits (they commit at every legal offset)"]),
